@@ -145,7 +145,7 @@ type rigProblem struct {
 // process-wide, so it is only meaningful when no other (abandoned: stuck or inconclusive scenario) client is alive.
 var openRigs int32 //nolint:gochecknoglobals
 
-var leakScansSkipped int64 //nolint:gochecknoglobals
+var leakScansSkipped atomic.Int64 //nolint:gochecknoglobals
 
 var errInjectedAgentClose = errors.New("injected agent close error")
 var errInjectedConnClose = errors.New("injected connection close error")
@@ -797,7 +797,7 @@ func (r *rig) closeAccounting() []rigProblem {
 		return nil
 	}
 	if atomic.LoadInt32(&openRigs) > 0 {
-		atomic.AddInt64(&leakScansSkipped, 1) // an abandoned client of an earlier scenario is still alive: the scan would blame this one
+		leakScansSkipped.Add(1) // an abandoned client of an earlier scenario is still alive: the scan would blame this one
 	} else if leaks := goroutineLeaks(); len(leaks) > 0 {
 		probs = append(probs, rigProblem{"goroutine-leak", "goroutine-leak", fmt.Sprintf("still alive after Close returned: %v", leaks)})
 	}
